@@ -8,6 +8,7 @@ from baize.exceptions import HTTPException
 from baize.typing import Environ, StartResponse, WSGIApp
 
 from .responses import FileResponse, RedirectResponse, Response
+from .routing import decode_path
 
 
 class Files(staticfiles.BaseFiles[WSGIApp]):
@@ -43,7 +44,9 @@ class Files(staticfiles.BaseFiles[WSGIApp]):
     ) -> Iterable[bytes]:
         if_none_match: str = environ.get("HTTP_IF_NONE_MATCH", "")
         if_modified_since: str = environ.get("HTTP_IF_MODIFIED_SINCE", "")
-        filepath = self.ensure_absolute_path(environ.get("PATH_INFO", ""))
+        filepath = self.ensure_absolute_path(
+            decode_path(environ.get("PATH_INFO", ""))
+        )
         stat_result, is_file = self.check_path_is_file(filepath)
         if is_file and stat_result:
             assert filepath is not None  # Just for type check
@@ -73,7 +76,9 @@ class Pages(Files):
     ) -> Iterable[bytes]:
         if_none_match: str = environ.get("HTTP_IF_NONE_MATCH", "")
         if_modified_since: str = environ.get("HTTP_IF_MODIFIED_SINCE", "")
-        filepath = self.ensure_absolute_path(environ.get("PATH_INFO", ""))
+        filepath = self.ensure_absolute_path(
+            decode_path(environ.get("PATH_INFO", ""))
+        )
         stat_result, is_file = self.check_path_is_file(filepath)
         if (
             stat_result is None  # filepath is not exist
